@@ -53,6 +53,18 @@ CLAIMS = {
         "note": "Trusted: the AST renderer in harness/src/props/c10.rs (uses the C12 column reference for padded fields). A final empty template line may be present or absent; widths beyond u16::MAX must be rejected with Err.",
         "technique": "runtime monitoring: grammar-directed differential oracle + panic monitor",
     },
+    "C13": {
+        "text": "Exploration with an exhaustive slice: {bar:N} for every N 0..=64, every length 0..=64 and every position 0..=len+1 (plus unknown length) over 3 (quick) / all 18 (thorough) progress character sets of 2..10 clusters of 1 or 2 columns is rendered through a real bar and parsed back into filled / partial / background cells: cell count = floor(N/c), filled = floor(pos*cells/len) from exact rational arithmetic (neighbour accepted only within f32 noise of an integer), monotone in pos, 0 at pos 0, full iff pos >= len, partial cell only when neither empty nor full and always a configured character; sampled huge lengths/positions/widths; {wide_bar} lines must be exactly as wide as the terminal (within one cell) on terminals 1..300.",
+        "design_ref": "DESIGN.md §4 C13",
+        "note": "Trusted: the cell parser and rational reference in harness/src/props/c13.rs. The exhaustive slice is complete for the stated ranges; everything beyond it is sampled.",
+        "technique": "runtime monitoring: exhaustive-slice + sampled differential oracle on rendered bar cells",
+    },
+    "C14": {
+        "text": "Exploration: sequences of 1-3 builder calls with boundary arguments (0/1/2/3/30 tick characters, 0/1/2/3/8 tick strings incl. empty ones, 0..10 progress clusters of equal/mixed/zero width, with_key, template); a panic inside the builder call is the accepted explicit rejection; every accepted style is asked for tick strings at tick values up to u64::MAX and drawn for 6 bar states x 4 terminal widths in release and debug builds; any panic after acceptance is a violation.",
+        "design_ref": "DESIGN.md §4 C14",
+        "note": "Tick counts beyond a few dozen are reached through the public ProgressStyle::get_tick_str(idx), not by ticking 2^32 times.",
+        "technique": "runtime monitoring: panic monitor separating build-time rejection from draw-time panics",
+    },
 }
 
 ALL = [f"C{n:02d}" for n in range(1, 20)]
